@@ -35,6 +35,7 @@ type world struct {
 	real    map[int]types.Hash256 // V profile: real sectors written through the volume manager
 	extra   []string              // directories to remove at the end
 	looseSlots bool               // after an interrupted migration: slot indices are no longer compared across sides
+	diverged   bool               // the two sides legitimately took different paths (see doBudgets); the history ends
 	fsDirty    bool               // a volume data file was removed or restored since the last restart
 	probe      int                // number of the next write-probe sector (V profile)
 	thorough bool
@@ -395,6 +396,167 @@ func (w *world) checkCopy(k int, dir string, o *opDef, before, twinAfter snapsho
 		eq = 0
 	}
 	return fmt.Sprintf("%d:%s:%s:%s:%d", k, stc, integ, res, eq)
+}
+
+// ---------------------------------------------------------------- overlapping budgets
+
+// doBudgets: `budgets a=<acct> maxs=[..] us=[..] first=<i> mode=rollback|retry k=<n>`: several budgets are open
+// on ONE account at the same time (as concurrent RPCs do); each spends a little. The commit of budget `first`
+// fails at statement k on the main side. mode=rollback: the owner rolls that budget back (what every RPC
+// handler defers) while the others are still open; mode=retry: the owner calls Commit on the same budget
+// again. Then the other budgets commit. Compared: the store untouched by the failed commit; the manager's
+// balance against the database while the others are open (balance served = stored balance minus what the
+// open budgets reserve) and after all have closed; the end state against the twin (which rolls the budget
+// back, resp. commits it once, without any failure).
+func (w *world) doBudgets(tr *vhlib.Trace, p vhlib.ParsedLine, pick func(n int) int) {
+	if w.main.mgr == nil {
+		tr.Line(p.Raw, "bad=needs_managers")
+		return
+	}
+	a, first, mode := p.Int("a"), p.Int("first"), p.Args["mode"]
+	maxs, us := p.U64List("maxs"), p.U64List("us")
+	if first >= len(maxs) || len(us) != len(maxs) {
+		tr.Line(p.Raw, "bad=budget_args")
+		return
+	}
+	acct := acct3(a)
+	type opened struct {
+		b    interface {
+			Commit() error
+			Rollback() error
+		}
+		max  uint64
+		open bool
+	}
+	openAll := func(sd *side) ([]*opened, string) {
+		var out []*opened
+		for i, mx := range maxs {
+			b, err := sd.mgr.am.Budget(acct, cur(mx))
+			if err != nil {
+				for _, o := range out {
+					o.b.Rollback()
+				}
+				return nil, "err"
+			}
+			if err := b.Spend(usage8{us[i]}.acct()); err != nil {
+				b.Rollback()
+				for _, o := range out {
+					o.b.Rollback()
+				}
+				return nil, "err"
+			}
+			out = append(out, &opened{b: b, max: mx, open: true})
+		}
+		return out, "ok"
+	}
+	// balanceAgrees: what the manager serves = what the store holds minus what the open budgets reserve
+	balanceAgrees := func(sd *side, bs []*opened) int {
+		stored, err1 := sd.st.AccountBalance(acct)
+		served, err2 := sd.mgr.am.Balance(acct)
+		var reserved uint64
+		for _, o := range bs {
+			if o.open {
+				reserved += o.max
+			}
+		}
+		return vhlib.B01(err1 == nil && err2 == nil && served.Add(cur(reserved)).Equals(stored))
+	}
+	// twin: no failure
+	tb, tres := openAll(w.twin)
+	n := 0
+	twinRes := tres
+	if tres == "ok" {
+		var err error
+		if mode == "retry" {
+			w.twin.inj.Count()
+			err = tb[first].b.Commit()
+			n = w.twin.inj.Disarm().Points
+		} else {
+			// learn the number of statement points of a commit from a different budget's commit later; the
+			// rolled-back budget itself never reaches the store on the twin
+			err = tb[first].b.Rollback()
+		}
+		tb[first].open = false
+		twinRes = classify(false, err)
+		for i, o := range tb {
+			if i != first {
+				w.twin.inj.Count()
+				if err := o.b.Commit(); err != nil {
+					twinRes = "err"
+				}
+				if r := w.twin.inj.Disarm(); n == 0 {
+					n = r.Points
+				}
+				o.open = false
+			}
+		}
+	}
+	twinAfter := w.snap(w.twin)
+	k := p.Int("k")
+	if _, ok := p.Args["k"]; !ok && pick != nil {
+		k = pick(n)
+	}
+	line := stripK(p.Raw) + fmt.Sprintf(" k=%d", k)
+	// main: the commit of budget `first` fails at statement k
+	mb, mres := openAll(w.main)
+	res, fired, same, agree1, agree2, eq, whereS := "skip", 0, 1, 1, 1, 1, "-"
+	if mres == "ok" && tres == "ok" {
+		before := storeSnapshot(w.main.st, w.b.maxRoot)
+		w.main.inj.Arm(k)
+		var err error
+		pn, _ := vhlib.Try(func() { err = mb[first].b.Commit() })
+		r := w.main.inj.Disarm()
+		res, fired, whereS = classify(pn, err), vhlib.B01(r.Fired), orDash(r.Where)
+		if res != "ok" {
+			same = vhlib.B01(len(storeSnapshot(w.main.st, w.b.maxRoot).diff(before)) == 0)
+			if mode == "retry" {
+				err = mb[first].b.Commit() // the same object again
+				if err != nil {
+					res += "+retryerr"
+				}
+			} else {
+				mb[first].b.Rollback()
+			}
+		} else if mode != "retry" {
+			// the fault did not hit the commit (k beyond its statements): the budget is committed on the main
+			// side but rolled back on the twin; the end states are not comparable
+			eq = -1
+		}
+		mb[first].open = false
+		agree1 = balanceAgrees(w.main, mb)
+		for i, o := range mb {
+			if i != first {
+				if err := o.b.Commit(); err != nil {
+					res += "+othererr"
+				}
+				o.open = false
+			}
+		}
+		agree2 = balanceAgrees(w.main, mb)
+		if eq != -1 {
+			eq = vhlib.B01(len(w.snap(w.main).diff(twinAfter)) == 0)
+		} else {
+			eq = 1
+		}
+	}
+	tr.Count("budgets:" + mode + ":" + res)
+	tr.Line(line, fmt.Sprintf("twin=%s open=%s n=%d res=%s fired=%d at=%s same=%d agree_open=%d agree_closed=%d eq=%d cache=%s integ=%s",
+		twinRes, mres, n, res, fired, whereS, same, agree1, agree2, eq, plus(w.main.cacheDiff(w.b.liveIDs())), w.main.integrity()))
+	if eq == 0 || (res == "ok" && mode != "retry") {
+		// the two sides went different ways: bring the twin's account to the main side's view by leaving the
+		// history here (the driver ends it on the flag; an unflagged divergence would be a harness error)
+		w.diverged = true
+	}
+}
+
+func stripK(raw string) string {
+	var out []string
+	for _, tk := range strings.Fields(raw) {
+		if !strings.HasPrefix(tk, "k=") {
+			out = append(out, tk)
+		}
+	}
+	return strings.Join(out, " ")
 }
 
 // ---------------------------------------------------------------- C18: restart
